@@ -16,6 +16,7 @@ import (
 	metav1 "k8s.io/apimachinery/pkg/apis/meta/v1"
 	"tkestack.io/galaxy/verifsim/core"
 	"tkestack.io/galaxy/verifsim/dropin/simnet"
+	"tkestack.io/galaxy/verifsim/dropin/simnetlink"
 	"tkestack.io/galaxy/verifsim/dropin/simos"
 	"tkestack.io/galaxy/verifsim/simkube"
 )
@@ -45,6 +46,7 @@ type Invocation struct {
 	Plugin    string
 	Stdin     []byte
 	Failed    bool
+	BadResult bool // succeeded, but printed a result without a usable IPv4 address
 }
 
 // Container is a pod sandbox.
@@ -70,6 +72,7 @@ type Container struct {
 	DelTries int
 	lastIP   string
 	resynced bool // a daemon start re-installed its mappings from the API server after it had died
+	Lost     map[string]bool // proto/port taken by another process while the daemon was down
 }
 
 // Request is one CNI request in flight or finished.
@@ -91,6 +94,7 @@ type Request struct {
 	before  []string
 	inUse   bool
 	fault   bool
+	badResult bool // the last plugin succeeded with a result the daemon cannot use: the request fails for that reason
 	overlap bool // another request of the same pod was in flight while this one ran
 	opened  []string
 	Done    bool
@@ -119,11 +123,11 @@ func profileFor(prop string) Profile {
 	case "C12":
 		return Profile{Ops: [2]int{4, 26}, Concurrent: true, Crash: true, FS: true, API: true, SetupIPT: true}
 	case "C14":
-		return Profile{Ops: [2]int{4, 22}, Stop: true, FS: true, IPT: true, NetInUse: true, Ports: true, SetupIPT: true, Overlap: true}
+		return Profile{Ops: [2]int{4, 22}, Stop: true, FS: true, IPT: true, API: true, NetInUse: true, Ports: true, SetupIPT: true, Overlap: true}
 	case "C17":
 		// the quantifier of C17 is inputs x fault sequences, not schedules: operations (requests, GC rounds, state
 		// changes) do not overlap; the two collectors of a round still interleave with each other
-		return Profile{Ops: [2]int{6, 28}, Runtime: true, GC: true, Ports: true, SetupIPT: true, FS: true, Crash: true}
+		return Profile{Ops: [2]int{6, 28}, Runtime: true, GC: true, Ports: true, SetupIPT: true, FS: true, API: true, Crash: true}
 	case "C19":
 		// maximal concurrency on one shared instance: concurrent requests of several containers through the real
 		// handler, the real GC loops and the real periodic EnsureBasicRule loop ticking while requests are in flight,
@@ -150,6 +154,7 @@ type World struct {
 	K    *simkube.Kube
 	FS   *simos.FS
 	Net  *simnet.Table
+	Links *simnetlink.Links
 	Kern *Kernel
 	cfg  *Config
 	prop string
@@ -181,6 +186,7 @@ type World struct {
 	// faults (per-run swarm parameters, per mille)
 	faultsOn  bool
 	fsRate, apiRate, iptRate, rtRate int
+	nlRate, conflictRate             int
 	rtDownLeft int
 	unscripted int // number of non-scripted faults and crashes that fired
 
@@ -198,6 +204,7 @@ type World struct {
 	podBase     map[int]map[string]int  // pod idx -> NAT lines before its first ADD
 	podOpens    map[int][]openEvent     // pod idx -> socket opens by its ADD requests
 	portPod     map[string]int          // proto/port -> pod idx that was last given the port
+	podEdited   map[int]bool            // somebody removed the pod's annotations during the run
 	baseNAT     []string // NAT lines after the first successful start
 	preStart    []string
 	syncOK      int
@@ -229,7 +236,7 @@ func (w *World) armed(p string) bool { return w.prop == p }
 func NewWorld(s *core.Sim, prop string, cfg *Config, solo *SoloSpec) *World {
 	w := &World{S: s, C: s.C, prop: prop, prof: profileFor(prop), solo: solo, byID: map[string]*Container{}, cur: map[int]*Container{},
 		made: map[int]int{}, reqs: map[string]*Request{}, attempts: map[string]int{}, leftovers: map[string]*Leftover{},
-		gcBusy: map[string]*core.Task{}, gcState: map[*core.Task]*gcTaskState{}, halfWritten: map[string]bool{}, rawBusy: map[string]*core.Task{}, podChains: map[int]map[string]bool{}, podBase: map[int]map[string]int{}, podOpens: map[int][]openEvent{}, portPod: map[string]int{}}
+		gcBusy: map[string]*core.Task{}, gcState: map[*core.Task]*gcTaskState{}, halfWritten: map[string]bool{}, rawBusy: map[string]*core.Task{}, podChains: map[int]map[string]bool{}, podBase: map[int]map[string]int{}, podOpens: map[int][]openEvent{}, portPod: map[string]int{}, podEdited: map[int]bool{}}
 	c := w.C
 	if cfg == nil {
 		cfg = genConfig(c, prop)
@@ -268,7 +275,25 @@ func NewWorld(s *core.Sim, prop string, cfg *Config, solo *SoloSpec) *World {
 	for i := range cfg.Leftovers {
 		lo := &cfg.Leftovers[i]
 		w.leftovers[lo.ID] = lo
+		if lo.PodStatus != "" && w.K.Get("pods", lo.PodNS, lo.PodName) == nil {
+			w.createLeftoverPod(lo)
+		}
 	}
+	w.Links = simnetlink.NewLinks()
+	for _, l := range cfg.Links {
+		w.Links.Add(l.Name, l.Type)
+	}
+	w.Links.FaultHook = w.linkFault
+	w.Links.ListFault = func(t *core.Task) int {
+		if w.faultsOn && w.nlRate > 0 && w.galaxyTask(t) && w.C.Prob(w.nlRate, 1000) {
+			w.S.Stat("fault.nl.linklist.err")
+			w.S.Sig("F:nl.list")
+			w.unscripted++
+			return 12 // ENOMEM
+		}
+		return 0
+	}
+	w.Links.OnDelete = w.onLinkDelete
 	s.OnPanic = w.onPanic
 	s.OnLockLeak = func(t *core.Task, held int) {
 		w.S.Stat("lockleak")
@@ -304,6 +329,10 @@ func NewWorld(s *core.Sim, prop string, cfg *Config, solo *SoloSpec) *World {
 		return []int{0, 0, 0, 15, 40, 100}[c.Choose(6)]
 	}
 	w.fsRate, w.apiRate, w.iptRate, w.rtRate = rate(w.prof.FS), rate(w.prof.API), rate(w.prof.IPT), rate(w.prof.Runtime)
+	w.nlRate = rate(w.prof.Runtime)
+	if prop == "C14" {
+		w.conflictRate = []int{0, 0, 100, 300}[c.Choose(4)]
+	}
 	if w.prof.Crash {
 		w.crashBudget = []int{0, 0, 1, 2}[c.Choose(4)]
 		w.crashAt = 30 + c.Choose(500)
@@ -411,7 +440,12 @@ func reqOf(t *core.Task) *Request {
 func (w *World) Handle(t *core.Task, r *core.Req) core.Resp {
 	switch {
 	case simkube.IsAPI(r.Op):
-		if w.galaxyTask(t) && t.Tag != "init" && w.faultsOn && w.apiRate > 0 && w.C.Prob(w.apiRate, 1000) {
+		if w.galaxyTask(t) && w.faultsOn && len(r.A) > 0 && r.A[0] == "pods" {
+			w.podEdits(t, r)
+		}
+		// C14 also lets the start-time pod list fail (the daemon then fails to start and is restarted); C17 injects
+		// API errors only into the collectors' pod lookups (part of asking whether a sandbox is dead)
+		if w.galaxyTask(t) && (t.Tag != "init" || w.armed("C14")) && (!w.armed("C17") || t.Tag == "gc") && w.faultsOn && w.apiRate > 0 && w.C.Prob(w.apiRate, 1000) {
 			w.S.Stat("fault.api.err")
 			w.S.Sig("F:api:" + r.Op)
 			w.noteFault(t)
@@ -428,6 +462,8 @@ func (w *World) Handle(t *core.Task, r *core.Req) core.Resp {
 		return w.K.Handle(t, r)
 	case simos.IsFSOp(r.Op):
 		return w.FS.Handle(t, r)
+	case simnetlink.IsLinkOp(r.Op):
+		return w.Links.Handle(t, r)
 	case simnet.IsNetOp(r.Op):
 		if rq := reqOf(t); rq != nil {
 			w.Net.CurOpener = rq.ID
@@ -473,6 +509,14 @@ func (w *World) fsFault(t *core.Task, op, path string, size int) simos.Fault {
 		return f
 	}
 	if op == "fs.stat" || op == "fs.chmod" {
+		return f
+	}
+	if w.armed("C17") && t.Tag == "gc" && op == "fs.remove" && w.C.Prob(w.fsRate, 2000) {
+		// a collector's unlink fails (the file stays for the next round)
+		w.S.Stat("fault.fs.err.gc-remove")
+		w.S.Sig("F:fs.err:gc-remove")
+		w.unscripted++
+		f.Errno = simos.EIO
 		return f
 	}
 	if w.armed("C17") && (t.Tag == "gc" || !strings.HasPrefix(path, gcDirs[2])) {
@@ -751,4 +795,66 @@ func taskNames(ts []*core.Task) []string {
 		out = append(out, t.Name)
 	}
 	return out
+}
+
+// podEdits: somebody else edits a pod right under a request of the daemon (C14): a label change just before the
+// daemon's Update makes it conflict, and an edit that removes all annotations makes the next Get return a pod
+// without an annotation map.
+func (w *World) podEdits(t *core.Task, r *core.Req) {
+	if !w.armed("C14") || len(r.A) < 3 || t.Tag == "init" {
+		return
+	}
+	ns, name := r.A[1], r.A[2]
+	switch r.Op {
+	case "api.update":
+		if w.conflictRate > 0 && w.C.Prob(w.conflictRate, 1000) {
+			n := w.S.Steps
+			w.K.Patch(nil, "pods", ns, name, func(m map[string]interface{}) {
+				meta := m["metadata"].(map[string]interface{})
+				meta["labels"] = map[string]interface{}{"rev": fmt.Sprint(n)}
+			})
+			w.S.Stat("fault.api.conflict")
+			w.S.Sig("F:api.conflict")
+			w.noteFault(t)
+		}
+	case "api.get":
+		// only the Get of updatePortMappingAnnotation (the request has opened its ports already): the edit then
+		// cannot change which networks or ports the pod is given
+		opened := false
+		if rq := reqOf(t); rq != nil {
+			for _, sk := range w.Net.Sockets() {
+				if sk.Opener == rq.ID {
+					opened = true
+				}
+			}
+		}
+		if opened && w.conflictRate > 0 && t.Tag == "add" && w.C.Prob(w.conflictRate, 2000) {
+			w.K.Patch(nil, "pods", ns, name, func(m map[string]interface{}) {
+				meta := m["metadata"].(map[string]interface{})
+				delete(meta, "annotations")
+			})
+			w.S.Stat("op.pod-annotations-removed")
+			if rq := reqOf(t); rq != nil {
+				w.podEdited[rq.C.Pod.Idx] = true // its networks annotation is gone too: later sandboxes may select other networks
+			}
+		}
+	}
+}
+
+func (w *World) createLeftoverPod(lo *Leftover) {
+	st := func(kind string) map[string]interface{} {
+		return map[string]interface{}{"name": "c-" + kind, "state": map[string]interface{}{kind: map[string]interface{}{}}}
+	}
+	var statuses []interface{}
+	switch lo.PodStatus {
+	case "terminated", "running", "waiting":
+		statuses = []interface{}{st(lo.PodStatus)}
+	case "mixed":
+		statuses = []interface{}{st("terminated"), st("running")}
+	}
+	pod := map[string]interface{}{"apiVersion": "v1", "kind": "Pod",
+		"metadata": map[string]interface{}{"name": lo.PodName, "namespace": lo.PodNS},
+		"spec":     map[string]interface{}{"nodeName": nodeName, "containers": []interface{}{map[string]interface{}{"name": "c"}}},
+		"status":   map[string]interface{}{"phase": "Running", "containerStatuses": statuses}}
+	w.mustCreate("pods", pod)
 }
